@@ -4,7 +4,7 @@ import seqfam, vlib
 
 ASSUME = ["inputs are small integers / halves, NULL and missing (exact rationals are the definition; floating-point accumulation error is out of scope)",
           "variance / stddev references are evaluated on whole-number inputs only", "percentile may be any value between the two bracketing order statistics",
-          "stddev/var/median/percentile over no usable input may be NULL or 0", "deduplicate is exercised in its one-argument form; merge_agg is not decided (documentation ambiguous)",
+          "stddev/var/median/percentile over no usable input may be NULL or 0", "deduplicate is exercised in its one-argument form; merge_agg is decided over text values only (over NULL / absent / numbers / objects documentation and behaviour disagree)",
           "batches are cut by CountingWindow(N) and replayed in lock-step"]
 MISSING = "__missing__"
 FNS = {"count_star": "count(*)", "count": "count(%s)", "sum": "sum(%s)", "avg": "avg(%s)", "min": "min(%s)", "max": "max(%s)",
@@ -238,6 +238,28 @@ def rawvals_query(rng, n):
     return {"meta": meta, "sql": sql, "rows": rows, "noretype": True}
 
 
+def merge_query(rng, n):
+    """merge_agg over text values: the comma-join of the group's values in arrival order - an empty text is a value like any other"""
+    glob = rng.random() < 0.4
+    items = ["merge_agg(u) AS a0", "count(u) AS a1", "collect(u) AS a2"]
+    aggs = [{"al": "a0", "fn": "merge_agg", "arg": {"k": "col", "c": "u"}, "p": 0}, {"al": "a1", "fn": "count", "arg": {"k": "col", "c": "u"}, "p": 0},
+            {"al": "a2", "fn": "collect", "arg": {"k": "col", "c": "u"}, "p": 0}]
+    rows, rid = [], 0
+    for b in range(3):
+        for k in range(n):
+            rid += 1
+            rows.append({"id": rid, "g": rng.choice(["a", "b"]), "u": rng.choice(["", "", "up", "down", "a,b", "007", " "])})
+    sel = ", ".join(items)
+    if glob:
+        sql = "SELECT g, %s FROM stream GROUP BY g, GLOBAL WINDOW TRIGGER WHEN COUNT(*) >= %d" % (sel, n)
+        meta = {"fam": "batch", "carrier": "global", "n": 0, "gcols": ["g"], "gout": ["g"], "aggs": aggs,
+                "pred": {"o": "cmp", "fn": "count_star", "arg": {"k": "star"}, "op": ">=", "lit": n * 10000}}
+    else:
+        sql = "SELECT g, %s FROM stream GROUP BY g, CountingWindow(%d)" % (sel, n)
+        meta = {"fam": "batch", "carrier": "counting", "n": n, "gcols": ["g"], "gout": ["g"], "aggs": aggs}
+    return {"meta": meta, "sql": sql, "rows": rows, "noretype": True}
+
+
 def run(tier):
     res = vlib.Result("C03", tier)
     rng = random.Random(vlib.seed())
@@ -304,6 +326,8 @@ def run(tier):
         scen.append(twocol_query(rng, rng.choice([2, 3, 4])))
     for _ in range(60 if quick else 2000):
         scen.append(rawvals_query(rng, rng.choice([2, 3, 4])))
+    for _ in range(60 if quick else 2000):
+        scen.append(merge_query(rng, rng.choice([2, 3, 4])))
     seqfam.run_scenarios(res, scen, "TraceBatch", tag="agg", relayout_p=0.3, retype_p=0.3, rename_p=0.3)
     res.cov["exhaustive"] = not quick
     res.cov["distinct_nontrivial"] = len({json.dumps(s["rows"], sort_keys=True) + s["sql"] for s in scen})
